@@ -2,7 +2,7 @@
 EXTENDS Topology, Json, IOUtils
 (* DEPTH=2 (quick): chains of up to 2 adapters; DEPTH=3 (thorough): single chains of up to 3      *)
 (* adapters, branched shapes as for 2 plus two extra branches on chains of up to 2 adapters       *)
-Out == IF IOEnv.DEPTH = "3" THEN Single(3) \cup Branched(2) \cup Branched2(2) ELSE Cases(2)
+Out == IF IOEnv.DEPTH = "3" THEN Single(3) \cup Branched(2) \cup Branched2(2) \cup BranchedOut(2) ELSE Cases(2)
 ASSUME ndJsonSerialize(IOEnv.OUT_FILE, SetToSeq(Out))
 VARIABLE x
 Init == x = 0
